@@ -60,3 +60,100 @@ Proof.
   intros H. unfold th1, theta_1, mass_below, exp_tail. cbn [xlt0 RNum nltb n0 nopp T].
   rewrite (proj2 (Rltb_true a 0) H). cbn. lra.
 Qed.
+
+(* ---- the missing direction (audit 4, B10): a sign change over the bracket yields a threshold reproducing the target, PROVIDED the marginal
+   tail integral is continuous on the bracket (intermediate value theorem, Coq's IVT_interv).  Monotonicity alone is not enough:
+   threshold_bracket_needs_continuity below is a measure with an atom for which the objective changes sign and has no zero. ---- *)
+From Coq Require Import Ranalysis1 Ranalysis5.
+
+Lemma continuity_pt_local (f g : R -> R) a d : 0 < d -> (forall x, Rabs (x - a) < d -> f x = g x) -> continuity_pt g a -> continuity_pt f a.
+Proof.
+  intros Hd E C. unfold continuity_pt, continue_in, limit1_in, limit_in in *. simpl in *. unfold R_dist in *.
+  intros eps He. destruct (C eps He) as (alp & Ha & H). exists (Rmin alp d). split; [apply Rmin_pos; assumption|].
+  intros x [Dx Hx]. rewrite (E x), (E a).
+  - apply H. split; [exact Dx|]. eapply Rlt_le_trans; [exact Hx|apply Rmin_l].
+  - unfold Rminus. rewrite Rplus_opp_r, Rabs_R0. exact Hd.
+  - eapply Rlt_le_trans; [exact Hx|apply Rmin_r].
+Qed.
+
+Section BracketRoot.
+  Variable U1 : nat -> ext R -> R.
+  Hypothesis Tok : rtails_ok U1.
+  Variables target rec h0 : R.
+  Hypothesis Hr : rec <= 1.
+  Hypothesis Hh : 0 < h0 < 10.
+  (* the tail integral of the (single) margin, as a function of a finite threshold, is continuous at every point of the bracket *)
+  Hypothesis Cont : forall a, -10 <= a <= - h0 -> continuity_pt (fun x => U1 0%nat (Fin x)) a.
+  Notation f := (implied_threshold_fun R (fun x => th1 RNum U1 (Fin x)) target rec).
+
+  (* on negative thresholds the generated objective is (1 - rec) * (- U(x)) - target *)
+  Let g (x : R) : R := (1 - rec) * (- U1 0%nat (Fin x)) - target.
+  Lemma objective_on_negatives x : x < 0 -> f x = g x.
+  Proof.
+    intros H. unfold implied_threshold_fun, cds_spread, th1, theta_1, mass_below, g. cbn [xlt0 RNum nltb n0 nopp T].
+    rewrite (proj2 (Rltb_true x 0) H). cbn. reflexivity.
+  Qed.
+  Lemma g_continuous a : -10 <= a <= - h0 -> continuity_pt g a.
+  Proof.
+    intros Ha. unfold g.
+    apply (continuity_pt_minus (fun x => (1 - rec) * - U1 0%nat (Fin x)) (fun _ => target)); [|apply continuity_pt_const; intros x y; reflexivity].
+    apply (continuity_pt_scal (fun x => - U1 0%nat (Fin x)) (1 - rec)).
+    apply (continuity_pt_opp (fun x => U1 0%nat (Fin x))). apply Cont. exact Ha.
+  Qed.
+
+  Theorem threshold_bracket_root : f (-10) * f (- h0) <= 0 -> exists a, -10 <= a <= - h0 /\ f a = 0.
+  Proof.
+    intros S. pose proof (threshold_fun_mono U1 Tok target rec Hr (-10) (- h0) ltac:(lra) ltac:(lra)) as M.
+    destruct (Req_dec (f (-10)) 0) as [Z1|N1]; [exists (-10); split; [lra|exact Z1]|].
+    destruct (Req_dec (f (- h0)) 0) as [Z2|N2]; [exists (- h0); split; [lra|exact Z2]|].
+    assert (L : f (-10) < 0) by nra. assert (U : 0 < f (- h0)) by nra.
+    rewrite objective_on_negatives in L by lra. rewrite objective_on_negatives in U by lra.
+    destruct (IVT_interv g (-10) (- h0) g_continuous ltac:(lra) L U) as (z & Hz & Ez).
+    exists z. split; [exact Hz|]. rewrite objective_on_negatives by lra. exact Ez.
+  Qed.
+
+  (* with the two directions: brentq's sign test passes EXACTLY when some threshold of the bracket reproduces the target *)
+  Corollary threshold_bracket_iff : f (-10) * f (- h0) <= 0 <-> exists a, -10 <= a <= - h0 /\ f a = 0.
+  Proof.
+    split; [apply threshold_bracket_root|]. intros (a & Ha & Ea).
+    destruct (threshold_bracket U1 Tok target rec h0 Hr (proj1 Hh)) as (_ & _ & B & _). exact (B a Ha Ea).
+  Qed.
+End BracketRoot.
+
+(* the continuity hypothesis holds for the two-sided exponential measure *)
+Lemma exp_tail_continuous a : a < 0 -> continuity_pt (fun x => exp_tail 0%nat (Fin x)) a.
+Proof.
+  intros Ha. apply (continuity_pt_local _ (fun x => - exp x) a (- a)); [lra| |].
+  - intros x Hx. unfold exp_tail. assert (x < 0) by (apply Rabs_def2 in Hx; lra). rewrite (proj2 (Rltb_true x 0) H). reflexivity.
+  - apply (continuity_pt_opp exp). apply derivable_continuous_pt. apply derivable_pt_exp.
+Qed.
+
+(* without continuity the direction fails: a unit atom at -1 (tail integral 0 left of -1, -1 on [-1, 0)) satisfies rtails_ok; with target 1/2 and
+   recovery 0 the objective is -1/2 on [-10, -1) and +1/2 on [-1, -1/20]: it changes sign over the bracket and vanishes nowhere *)
+Definition atom_tail (i : nat) (x : ext R) : R :=
+  match x with Fin v => if Rltb v 0 then (if Rltb v (-1) then 0 else -1) else 0 | _ => 0 end.
+Lemma atom_tail_ok : rtails_ok atom_tail.
+Proof.
+  split; [intros i; split; reflexivity|].
+  intros i x y L S. destruct x as [|u|], y as [|v|]; cbn in *; try discriminate; try lra;
+    try (destruct S as [S|S]; try discriminate).
+  all: repeat match goal with
+       | |- context [Rltb ?a ?b] => let E := fresh in destruct (Rltb a b) eqn:E; [apply Rltb_true in E|apply Rltb_false in E]
+       | H : Rltb ?a ?b = true |- _ => apply Rltb_true in H
+       | H : Rltb ?a ?b = false |- _ => apply Rltb_false in H
+       | H : Rleb ?a ?b = true |- _ => apply Rleb_true in H
+       end.
+  all: lra.
+Qed.
+Theorem threshold_bracket_needs_continuity :
+  let f := implied_threshold_fun R (fun x => th1 RNum atom_tail (Fin x)) (1 / 2) 0 in
+  rtails_ok atom_tail /\ f (-10) * f (- (1 / 20)) < 0 /\ forall a, -10 <= a <= - (1 / 20) -> f a <> 0.
+Proof.
+  cbv zeta.
+  assert (V : forall a, a < 0 -> implied_threshold_fun R (fun x => th1 RNum atom_tail (Fin x)) (1 / 2) 0 a = if Rltb a (-1) then - (1 / 2) else 1 / 2).
+  { intros a Ha. unfold implied_threshold_fun, cds_spread, th1, theta_1, mass_below, atom_tail. cbn [xlt0 RNum nltb n0 nopp T].
+    rewrite (proj2 (Rltb_true a 0) Ha). destruct (Rltb a (-1)); cbn; lra. }
+  split; [exact atom_tail_ok|]. split.
+  - rewrite !V by lra. rewrite (proj2 (Rltb_true (-10) (-1))) by lra. rewrite (proj2 (Rltb_false (- (1 / 20)) (-1))) by lra. lra.
+  - intros a Ha. rewrite V by lra. destruct (Rltb a (-1)); lra.
+Qed.
